@@ -8,6 +8,7 @@ import (
 	"os"
 	"path/filepath"
 	"sort"
+	"strconv"
 	"strings"
 	"sync"
 
@@ -75,9 +76,18 @@ type c18Tree struct {
 // files = comma-joined <L|D|X><hex rel>: L on disk + indexed, D disk only, X indexed only
 func c18MakeTree(rootHex, files string) (*c18Tree, error) {
 	root := string(unhex(rootHex))
-	if !strings.HasPrefix(root, "/tmp/lhv18/") || strings.Contains(root, "..") {
+	if !strings.HasPrefix(root, "/tmp/lhv18/") || strings.Contains(root, "..") || strings.Contains(root, ".") {
 		return nil, fmt.Errorf("root outside /tmp/lhv18")
 	}
+	// /tmp/lhv18/<token>/ws is realised as /tmp/lhv18/<token>_<pid>/ws so that concurrent runs of the same case
+	// (committed witnesses have fixed tokens) cannot share a directory; answers are printed relative to the root
+	parts := strings.Split(root, "/")
+	if len(parts) < 5 {
+		return nil, fmt.Errorf("root too short")
+	}
+	parts[3] = parts[3] + "_" + strconv.Itoa(os.Getpid())
+	root = strings.Join(parts, "/")
+	os.RemoveAll(strings.Join(parts[:4], "/"))
 	t := &c18Tree{root: root}
 	if err := os.MkdirAll(root, 0o755); err != nil {
 		return nil, err
